@@ -368,8 +368,10 @@ inductive Thread where
   /-- PutPart(id, v): pc 0 inner store written (transaction commits), pc 1 after-commit hook: `cache.Set`. -/
   | put (id v : Nat) (pc : Nat)
   /-- GetPart(id): `lookup` the cache; `inner` read of the inner store (the streaming reader is open);
-  `fill` the caller has read the stream to its end, the cache entry is written. -/
-  | get (id : Nat) (pc : GetPc) (snap : Option Nat)
+  `fill` the stream has ended: either the caller has read it to EOF and the cache entry is written, or
+  (`fails`) the inner reader broke with a non-EOF error after some bytes / the caller closed it early – the
+  fill pipe is closed WITH the error, `cache.Set` fails, nothing is cached, the caller got an error. -/
+  | get (id : Nat) (fails : Bool) (pc : GetPc) (snap : Option Nat)
   /-- DeletePart(id): pc 0 inner delete, pc 1 after-commit hook: `cache.Remove`. -/
   | delete (id : Nat) (pc : Nat)
   deriving DecidableEq, Repr
@@ -390,19 +392,21 @@ def stepThread (s : St) : Thread → St × Thread
   | .put id v 0 => ({ s with inner := insert s.inner id v, puts := (id, v) :: s.puts }, .put id v 1)
   | .put id v 1 => ({ s with cache := insert s.cache id v }, .put id v 2)
   | .put id v pc => (s, .put id v pc)
-  | .get id .lookup sn =>
+  | .get id fl .lookup sn =>
     match lookup s.cache id with
-    | some v => ({ s with returned := (id, some v) :: s.returned }, .get id .done sn)
-    | none => (s, .get id .inner sn)
-  | .get id .inner _ =>
+    | some v => ({ s with returned := (id, some v) :: s.returned }, .get id fl .done sn)
+    | none => (s, .get id fl .inner sn)
+  | .get id fl .inner _ =>
     match lookup s.inner id with
-    | some v => (s, .get id .fill (some v))
-    | none => ({ s with returned := (id, none) :: s.returned }, .get id .done none)
-  | .get id .fill sn =>
+    | some v => (s, .get id fl .fill (some v))
+    | none => ({ s with returned := (id, none) :: s.returned }, .get id fl .done none)
+  | .get id fl .fill sn =>
     match sn with
-    | some v => ({ s with cache := insert s.cache id v, returned := (id, some v) :: s.returned }, .get id .done sn)
-    | none => (s, .get id .done sn)
-  | .get id .done sn => (s, .get id .done sn)
+    | some v =>
+      if fl then (s, .get id fl .done sn)   -- failed fill: nothing stored, nothing returned (an error)
+      else ({ s with cache := insert s.cache id v, returned := (id, some v) :: s.returned }, .get id fl .done sn)
+    | none => (s, .get id fl .done sn)
+  | .get id fl .done sn => (s, .get id fl .done sn)
   | .delete id 0 => ({ s with inner := erase s.inner id }, .delete id 1)
   | .delete id 1 => ({ s with cache := erase s.cache id }, .delete id 2)
   | .delete id pc => (s, .delete id pc)
